@@ -20,6 +20,10 @@
     (d) `C07_links_eq_spec` is NOT proved; its statement is kept below as a comment.  The equality is
         checked by correspondence (harness/props/c07.py evaluates `Spec.links` on the implementation's
         items for every generated case).
+    (e) whole walk / whole message: Props/C07Walk.lean (`C07_walk_invariant`, the soundness half
+        `C07_links_sound_partial` / `C07_links_sound_message_partial`) and Props/C07Subsets.lean (the
+        links of a subset of an uncompressed message are those of that subset alone;
+        `C07_links_eq_spec_lifts_to_message` reduces (d) from messages to single walks).
 -/
 import BufrModel.Spec.Links
 import BufrModel.Lemmas.Links
